@@ -73,10 +73,20 @@ func (r *entityReaderWriters) accessorAt(mime string) (EntityReaderWriter, bool)
 	if !ok {
 		// retry with reverse lookup
 		// more expensive but we are in an exceptional situation anyway
-		for k, v := range r.accessors {
-			if strings.Contains(mime, k) {
-				return v, true
+		// the registered type that occurs first in the value decides (the media type of a header
+		// value stands before its parameters), the longer one if two start at the same position
+		at, found := -1, ""
+		for k := range r.accessors {
+			i := strings.Index(mime, k)
+			if i == -1 {
+				continue
 			}
+			if at == -1 || i < at || (i == at && len(k) > len(found)) {
+				at, found = i, k
+			}
+		}
+		if at != -1 {
+			return r.accessors[found], true
 		}
 	}
 	return er, ok
